@@ -468,10 +468,13 @@ def transformation_sol_any_m(u):
     N = n + k
     ucl, ucu = V(user.fields["cons_lb"]), V(user.fields["cons_ub"])
     ulb, uub = V(user.fields["var_lb"]), V(user.fields["var_ub"])
-    mode = p.choose_n(2, "x0 given / None")
+    mode3 = p.choose_n(3, "x0 given inside the box / x0 given anywhere / None")
+    mode = 0 if mode3 in (0, 1) else 1
+    anywhere = mode3 == 1  # the exact reformulation (C04) and the first announced point (C12) do not need x0 in the box
     if mode == 0:
         x0 = u.vec("x0", n, region="USER")
-        p.add_ufact(UFact(1, lambda j: z3.And(ulb.f(j) <= V(x0).f(j), V(x0).f(j) <= uub.f(j)), [(0, n)], "requires:in_box(x0)"))
+        if not anywhere:
+            p.add_ufact(UFact(1, lambda j: z3.And(ulb.f(j) <= V(x0).f(j), V(x0).f(j) <= uub.f(j)), [(0, n)], "requires:in_box(x0)"))
         y0 = u.vec("y0", m, region="USER")
     else:
         x0, y0 = None, None
@@ -479,7 +482,8 @@ def transformation_sol_any_m(u):
     xi, yi = V(itx.fields["x"]), V(itx.fields["y"])
     tlb, tub = V(tp.fields["var_lb"]), V(tp.fields["var_ub"])
     u.ensure(itx.fields["problem"] is tp, "start_iterate_belongs_to_the_transformed_problem")
-    u.ensure(QAll(n, lambda j: z3.And(tlb.f(j) <= xi.f(j), xi.f(j) <= tub.f(j))), "start_iterate_in_box(variables)", props=["C05"])
+    if not anywhere:
+        u.ensure(QAll(n, lambda j: z3.And(tlb.f(j) <= xi.f(j), xi.f(j) <= tub.f(j))), "start_iterate_in_box(variables)", props=["C05"])
     u.ensure(QAll(k, lambda t: z3.And(tlb.f(n + t) <= xi.f(n + t), xi.f(n + t) <= tub.f(n + t))), "start_iterate_in_box(slacks)", props=["C05"])
     if mode == 0:
         u.ensure(QAll(n, lambda j: xi.f(j) == V(x0).f(j) * W(j)), "start_x[:n]==x0*P(vw)")
@@ -501,7 +505,10 @@ def transformation_sol_any_m(u):
         u.ensure(k == 0, "user_constraints_not_evaluated_only_without_slacks")
     for call in up.calls:
         av = V(call[1])
-        u.ensure(QAll(n, lambda j: z3.And(ulb.f(j) <= av.f(j), av.f(j) <= uub.f(j))), f"user_{call[0]}_evaluated_inside_the_user's_box", props=["C05"])
+        if not anywhere:
+            u.ensure(QAll(n, lambda j: z3.And(ulb.f(j) <= av.f(j), av.f(j) <= uub.f(j))), f"user_{call[0]}_evaluated_inside_the_user's_box", props=["C05"])
+        elif mode == 0:
+            u.ensure(QAll(n, lambda j: av.f(j) == V(x0).f(j)), f"user_{call[0]}_evaluated_at_the_user's_x0", props=["C04", "C12"])
     d = u.vec("d_int", N)
     xr, yr, dr = u.method(tr, "restore_sol", itx.fields["x"], itx.fields["y"], d)
     if mode == 0:
@@ -512,6 +519,7 @@ def transformation_sol_any_m(u):
     u.ensure(QAll(n, lambda j: V(dr).f(j) == V(d).f(j) * (P(vw.f(j) - ow) if sc else 1)), "restored_d==d_int[:n]*P(vw-ow)")
     same_len = lambda a: (a == n) if not isinstance(a, int) else False
     u.ensure(z3.And(same_len(V(xr).n), same_len(V(dr).n)), "restored_vectors_have_the_user's_length_n")
-    u.ensure(QAll(n, lambda j: z3.And(ulb.f(j) <= V(xr).f(j), V(xr).f(j) <= uub.f(j))), "restored_x_inside_user_box", props=["C05", "C01"])
+    if not anywhere:
+        u.ensure(QAll(n, lambda j: z3.And(ulb.f(j) <= V(xr).f(j), V(xr).f(j) <= uub.f(j))), "restored_x_inside_user_box", props=["C05", "C01"])
     log.check()
     u.cover("end")
